@@ -207,3 +207,53 @@ def c13_3(R):
                             R.ok("acceptor-put-back", "%s %s" % (fname.split("::")[-1], var))
                         else:
                             R.fail([fname, "acceptor-lost-on", var], "on MatchSynWithAccept::%s the acceptor is dropped instead of being stored back: an accept() call is lost" % var, where=blk.term.where(), instance="acceptor-put-back")
+
+
+@rule("C13.4", ["C13", "C12"], ["E2", "E4"], "the backlog is re-examined on every dispatcher iteration; slot scans are exhaustive",
+      "Dispatcher::run_once calls cleanup_accept_queue before the select!, i.e. the call dominates all three arms (new acceptor stored, on_control, on_recv): a slot freed by a Shutdown or a new "
+      "acceptor is matched with parked SYNs whatever event ended the previous iteration. ConnectingPerAddr::insert / pop / pop_by_token scan `self.slots.iter_mut()` directly, with no take/skip/filter "
+      "adapter (a scan bounded by `len` misses entries after a hole and leaks their slot).")
+def c13_4(R):
+    F = R.facts
+    found = False
+    for b in fn_bodies(F, D + "::run_once"):
+        cl = [t.bb for t in b.calls() if call_matches(t, (D + "::cleanup_accept_queue",))]
+        arms = [t for t in b.calls() if call_matches(t, (D + "::on_control", D + "::on_recv"))]
+        stores = [s for s in b.stmts() if written_field(b, s) == "AcceptQueue.next_available_acceptor"]
+        if not arms:
+            continue
+        found = True
+        dom = b.dominators()
+        bad = [x for x in arms if not any(c in dom.get(x.bb, ()) for c in cl)] + [x for x in stores if not any(c in dom.get(x.bb, ()) for c in cl)]
+        if cl and not bad:
+            R.ok("cleanup-every-iteration", D + "::run_once", "cleanup_accept_queue dominates the %d select! arms" % (len(arms) + len(stores)))
+        else:
+            R.fail([D + "::run_once", "cleanup_accept_queue-not-before-select"], "the SYN backlog is not re-examined on every dispatcher iteration: after a connection slot frees up, a parked SYN and a waiting accept() are never paired (both hang) and later SYNs overtake it", where=(bad[0].where() if bad else b.where()), instance="cleanup-every-iteration")
+    if not found:
+        R.fail([D + "::run_once", "anchor"], "select! arms of run_once not found", instance="cleanup-every-iteration")
+    adapters = ("std::iter::Iterator::take", "std::iter::Iterator::skip", "std::iter::Iterator::filter", "std::iter::Iterator::take_while", "std::iter::Iterator::skip_while", "std::iter::Iterator::step_by", "std::iter::Iterator::rev")
+    for name in ("insert", "pop", "pop_by_token"):
+        b = R.body("socket::ConnectingPerAddr::" + name)
+        nexts = [t for t in b.calls() if call_matches(t, ("Iterator::next",))]
+        ok = False
+        why = "no scan loop"
+        for t in nexts:
+            src = trace(b, t.args[0], extra_transparent=adapters + ("std::iter::IntoIterator::into_iter",))
+            used = [short_callee(s.resolved) for s in src.steps if isinstance(s, Term) and s.kind == "call" and s.callee in adapters]
+            if src.kind == "multi":
+                for d in src.root[3]:
+                    if isinstance(d, Term) and d.kind == "call" and d.args:
+                        s2 = trace(b, d.args[0], extra_transparent=adapters + ("std::iter::IntoIterator::into_iter",))
+                        used += [short_callee(s.resolved) for s in [d] + s2.steps if isinstance(s, Term) and s.kind == "call" and s.callee in adapters]
+                        src = s2
+            if src.kind == "call" and (src.root[1].resolved or "").endswith("iter_mut") and trace(b, src.root[1].args[0]).last_field == "ConnectingPerAddr.slots":
+                if used:
+                    why = "adapters: " + ",".join(used)
+                else:
+                    ok = True
+            else:
+                why = "iterates " + src.describe()[:50]
+        if ok:
+            R.ok("slot-scan-exhaustive", b.name, "for slot in self.slots.iter_mut()")
+        else:
+            R.fail([b.name, "slot-scan", why], "%s does not scan all connecting slots (%s): an entry behind a hole is never found and its slot leaks" % (name, why), where=b.where(), instance="slot-scan-exhaustive")
